@@ -437,6 +437,23 @@ func (g *gen) addKeyword(s *S, d int, p pos) {
 		}
 	case k < 23: // const
 		s.Const = g.constValue(2)
+	case k < 33 && r.Chance(1, 3): // sibling bounds on one side: maximum + exclusiveMaximum, minimum + exclusiveMinimum
+		base := g.half()
+		gap := int64(1 + r.Intn(4))
+		if r.Bool() {
+			// the inclusive bound is the tighter one half of the time
+			if r.Bool() {
+				s.Max, s.XMax = i64p(base), i64p(base+gap)
+			} else {
+				s.Max, s.XMax = i64p(base+gap), i64p(base)
+			}
+		} else {
+			if r.Bool() {
+				s.Min, s.XMin = i64p(base), i64p(base-gap)
+			} else {
+				s.Min, s.XMin = i64p(base-gap), i64p(base)
+			}
+		}
 	case k < 33: // numeric bounds
 		switch r.Intn(5) {
 		case 0:
@@ -572,6 +589,25 @@ func (g *gen) addKeyword(s *S, d int, p pos) {
 		}
 		if r.Chance(1, 3) {
 			s.MaxContains = ip(1 + r.Intn(3))
+		}
+	case k >= 84 && k < 93 && r.Chance(1, 4): // anyOf / oneOf over constants, possibly with duplicates
+		n := 2 + r.Intn(3)
+		var vals []*J
+		for i := 0; i < n; i++ {
+			if i > 0 && r.Chance(1, 3) {
+				vals = append(vals, common.Pick(r, vals).clone())
+			} else {
+				vals = append(vals, g.constValue(1))
+			}
+		}
+		var l []*S
+		for _, v := range vals {
+			l = append(l, &S{Const: v})
+		}
+		if k < 89 {
+			s.HasAnyOf, s.AnyOf = true, l
+		} else {
+			s.HasOneOf, s.OneOf = true, l
 		}
 	case k < 84:
 		s.HasAllOf = true
@@ -797,6 +833,15 @@ func (ig *igen) forSchema(s *S, d int) *J {
 		}
 		return n
 	case "number":
+		var own []int64
+		for _, p := range []*int64{s.Min, s.Max, s.XMin, s.XMax} {
+			if p != nil {
+				own = append(own, *p)
+			}
+		}
+		if len(own) > 0 && r.Chance(1, 2) {
+			return jnum(common.Pick(r, own))
+		}
 		return ig.num()
 	case "string":
 		return ig.str(s)
